@@ -22,6 +22,9 @@ CHECKS["C11"] = ("verdict monitor over the real compiler (in-process worker pool
 CHECKS["C12"] = ("verdict monitor by construction over generated multi-module projects compiled by the real compiler (in-process pool + CLI confirmation): lowercase/uppercase twins of every symbol kind in identical access sites, contexts and import shapes, enumerated completely",
  "Exhaustive over the enumerated catalogue (about 3000 projects): in every access site x context x import shape the lowercase twin (const, variable, function, struct type, enum type, struct field; other module and same module outside the receiver) was rejected and the uppercase twin in the identical position accepted; struct literals initialising private fields and receiver access were accepted.",
  "catalogue = the rig's reading of the property's dimensions; private methods / enum variants not asserted", "DESIGN.md §3 C12")
+CHECKS["C13"] = ("crash/hang/contract monitor over hostile inputs: in-process worker pool (panic caught with stack, worker death attributed to the logged job) for type-check and wasm targets, real CLI under RLIMIT_CPU for native target and for every suspicious input; predicates over the outcome record (exit status vs diagnostics vs artifact vs locations)",
+ "Held on N hostile inputs (random bytes, UTF-8 noise, truncations, token mutations of the corpus, token soup, deep nesting, encoding oddities, malformed multi-file projects): no Go panic/fatal error/signal, CPU budget respected, exit status in {0,1} and equal to 'an error diagnostic was printed', artifact present iff success, every printed location inside an input file.",
+ "CPU budget (20 s) and input size bound (16 KiB, nesting <= 400) are the rig's choices; a wall-clock watchdog firing is inconclusive", "DESIGN.md §3 C13")
 CHECKS["C16"] = ("reference-model monitor: math/big oracle over the exported C API of bigint.c (value and _ptr forms) behind a clang ASan+UBSan driver, limb-boundary-weighted operand workload",
  "Held on N calls: every exported ferret_{i,u}{128,256}_* operation (add, sub, mul, div, mod, comparisons, and/or/xor/not, shl/shr, pow, 64-bit conversions, decimal/hex/octal/binary text conversion) returned the math/big result reduced mod 2^N on every generated operand pair, in both calling forms, without a sanitizer report. Exploration over a 2^256 space: strength comes from boundary weighting (limb edges, sign boundaries, borrow/carry chains), not enumeration.",
  "trusts math/big and the hex transport of the driver; division by zero, negative shifts/exponents are out of the property's domain", "DESIGN.md §3 C16")
